@@ -3,12 +3,16 @@
    exactly once each, in pages that partition the listing; a successful write through the union
    is read back through the union, modifying part of a base-only file keeps all its other bytes,
    and a failed call leaves the view unchanged.
-   Statements only; proofs in Proofs/CowViewProof.v, Proofs/UnionProof.v, Proofs/CopyUpProof.v.
-   Theorems 1-9 and 12-14 are over two ARBITRARY inner filesystems (any step functions);
-   10-11 are for MemMapFs on both sides.  `_partial` marks statements that cover less than the
-   sentence of the property; what is missing is said next to each. *)
-From AF Require Import Lib.Bytes Lib.Path Lib.Ops Gen.Consts Model.MemFile Model.MemFs Model.ReadOnly
-  Model.Union Model.Cow Proofs.MemFsBasics Proofs.UnionProof Proofs.CowViewProof Proofs.CopyUpProof.
+   Statements only; proofs in Proofs/CowViewProof.v, Proofs/UnionProof.v, Proofs/CopyUpProof.v,
+   Proofs/CowLayer.v, Proofs/CowFileOps.v, Proofs/CopyUpFull.v, Proofs/CowWriteProof.v, Proofs/CowFailedProof.v.
+   Sections 1-4 and the refusals of section 6 are over two ARBITRARY inner filesystems (any step functions);
+   section 5 (copy-up, write / read back) and C06_failed_call_view_unchanged are for MemMapFs on both sides, for EVERY
+   overlay state satisfying the invariant WF of C01 (every state a well-formed program reaches:
+   C01_index_mirrors_map, C01_step_preserves_WF) and every rooted name in any spelling. *)
+From AF Require Import Lib.Bytes Lib.Path Lib.Ops Gen.Consts Model.MemFile Model.ByteFile Model.MemFs Model.WfOps Model.ReadOnly
+  Model.Union Model.Cow Model.CowView
+  Proofs.MemFileProof Proofs.MemFsPath Proofs.MemFsBasics Proofs.MemFsWF Proofs.MemFsInv Proofs.UnionProof Proofs.CowViewProof Proofs.CopyUpProof
+  Proofs.CowLayer Proofs.CowFileOps Proofs.CopyUpFull Proofs.CowWriteProof Proofs.CowFailedProof.
 Local Open Scope Z_scope.
 
 (* ---- 1. lookup: overlay's entry if it has one, else the base's ---- *)
@@ -205,14 +209,76 @@ Theorem C06_LF_meaning : forall nn g s d mt,
 Proof. exact LF_meaning. Qed.
 Print Assumptions C06_LF_meaning.
 
-(* PARTIAL.  Full statement: "whenever copyToLayer succeeds, the overlay holds the base's bytes
-   and mtime".  Proved: for a regular base file of ANY size (any number of 32 KiB chunks) and an
-   overlay in situation (A) or (B), copyToLayer SUCCEEDS, the overlay then maps the name to a
-   regular file with exactly the base's bytes and the base's mtime, and the base's stored
-   filesystem is unchanged.  Missing: more than one missing directory level in the overlay
-   (MemMapFs.registerWithParent creating a chain of ancestors), a name already present in the
-   overlay, names whose directory part and registration parent differ (trailing slashes). *)
-Theorem C06_copy_up_preserves_partial : forall sb sl name f nd,
+(* the vocabulary of the statements below.  WF: the invariant of C01 (index mirrors map; C01_WF_meaning).
+   wf_name name: the normalised name is rooted.  cview s k: what layer s holds under the normalised
+   path k — kind and, for a regular file, its bytes.  below_file s k = false: lockfreeBelowFile of
+   memmap.go says "not below a regular file"; in a well-formed state that is: every existing proper
+   ancestor of k is a directory.  copy_up_frame nn sl sl': every entry other than nn is as before,
+   except that directories have appeared at (some) ancestors of nn where the overlay held nothing. *)
+Theorem C06_cview_meaning : forall s k,
+  cview s k = match lookup s k with
+              | Some r => match get_node s r with
+                          | Some n => Some (ndir n, if ndir n then [] else ndata n)
+                          | None => None
+                          end
+              | None => None
+              end.
+Proof. exact cview_meaning. Qed.
+Print Assumptions C06_cview_meaning.
+
+Theorem C06_not_below_file_meaning : forall s k, WF s -> canon k ->
+  (below_file s k = false <->
+   forall a r n, canon a -> (a = par k \/ below a (par k) = true \/ a = s_slash) ->
+     lookup s a = Some r -> get_node s r = Some n -> ndir n = true).
+Proof. exact not_below_file_meaning. Qed.
+Print Assumptions C06_not_below_file_meaning.
+
+Theorem C06_copy_up_frame_meaning : forall nn sl sl',
+  copy_up_frame nn sl sl' <->
+  forall k, k <> nn ->
+    cview sl' k = cview sl k \/
+    (cview sl k = None /\ cview sl' k = Some (true, []) /\ (k = par nn \/ below k (par nn) = true)).
+Proof. exact copy_up_frame_meaning. Qed.
+Print Assumptions C06_copy_up_frame_meaning.
+
+(* the directory copyFile makes sure of is the parent of the normalised name, whatever the spelling
+   (trailing separators, "." and ".." elements, repeated separators); needs copyfile_cleans_name = 1 *)
+Theorem C06_copy_dir_is_parent : forall name, wf_name name = true ->
+  normalize_path (copy_dir name) = par (normalize_path name).
+Proof. exact copy_dir_key. Qed.
+Print Assumptions C06_copy_dir_is_parent.
+
+(* Copy-up, full statement: "whenever copyToLayer succeeds, the overlay holds the base's bytes and
+   mtime" — and it says exactly when it succeeds.  For EVERY well-formed base and overlay, EVERY
+   rooted name in any spelling, a regular base file of ANY size (any number of 32 KiB chunks), the
+   overlay holding the name as a regular file or not at all, with ANY number of missing directory
+   levels: copyToLayer returns nil iff the name does not lie below a regular file of the overlay;
+   then the overlay maps the name to a regular file with exactly the base's bytes and the base's
+   mtime, it is well-formed again, and nothing else changed in it except that the missing ancestor
+   directories now exist; if it returns an error nothing the overlay stores has changed.  The
+   base's stored filesystem is unchanged either way.
+   Not covered (named): a DIRECTORY under the name in the overlay — MemMapFs.Create then rebinds
+   the path and leaves the old children behind, which C01 excludes as an ill-formed call; through
+   CopyOnWriteFs this does not arise, copy-up starts only after the overlay's Stat of the name
+   failed.  Relative names (not rooted after normalisation) are outside WF: MemMapFs keeps them
+   under separate keys. *)
+Theorem C06_copy_up_preserves : forall sb sl name f nd,
+  WF sb -> WF sl -> wf_name name = true ->
+  let nn := normalize_path name in
+  lookup sb nn = Some f -> get_node sb f = Some nd -> ndir nd = false ->
+  kind_at sl nn <> Some true ->
+  exists sb' sl' e, copy_to_layer m_step m_step sb sl name = (sb', sl', e) /\
+    fs_view sb' = fs_view sb /\
+    (e = None <-> below_file sl nn = false) /\
+    (e = None -> (exists g, LF nn g sl' (ndata nd) (Some (nmtime nd))) /\ WF sl' /\ copy_up_frame nn sl sl') /\
+    (e <> None -> fs_view sl' = fs_view sl).
+Proof. exact copy_up_preserves. Qed.
+Print Assumptions C06_copy_up_preserves.
+
+(* the same two situations as before the strengthening, but with NO invariant assumed on either
+   side (any state, shapes (A)/(B) of copy_up_ready spelled out above): kept because it also covers
+   states no well-formed program reaches *)
+Theorem C06_copy_up_any_state : forall sb sl name f nd,
   let nn := normalize_path name in
   lookup sb nn = Some f -> get_node sb f = Some nd -> ndir nd = false ->
   copy_up_ready sl name ->
@@ -220,42 +286,243 @@ Theorem C06_copy_up_preserves_partial : forall sb sl name f nd,
     fs_view sb' = fs_view sb /\
     LF nn g sl' (ndata nd) (Some (nmtime nd)).
 Proof. exact copy_up_mem. Qed.
-Print Assumptions C06_copy_up_preserves_partial.
+Print Assumptions C06_copy_up_any_state.
 
-(* PARTIAL (same situations; the write is a non-empty prefix overwrite).  Through cow(mem,mem):
-   OpenFile(O_RDWR) of a base-only file, Write b (0 < len b <= size), Close, Stat, Open, Read(size):
-   every call succeeds, Stat shows a regular file of the old size, the Read returns b followed by
-   ALL remaining old bytes, the base's stored filesystem is unchanged, and the overlay holds the
-   new content.  Missing: other offsets/lengths (follow from C02 for the overlay file), O_WRONLY /
-   O_APPEND / O_TRUNC opens. *)
-Theorem C06_write_read_back_partial : forall sb sl tbl name perm f nd b,
+(* Write / read back, full statement.  The handle methods C02 speaks about (file_op: Read, ReadAt
+   with a buffer length >= 0, Write, WriteAt, WriteString, Seek, Truncate, Close, Stat, Sync); the
+   first handle state MemMapFs.OpenFile prepares from the flag word (open_spec: content after
+   O_TRUNC, offset after O_APPEND, read-only?). *)
+Theorem C06_file_op_meaning : forall o,
+  file_op o = true <->
+  match o with
+  | HRead _ n | HReadAt _ n _ => 0 <= n
+  | HWrite _ _ | HWriteAt _ _ _ | HWriteString _ _ | HSeek _ _ _ | HTruncate _ _ | HClose _ | HStat _ | HSync _ => True
+  | _ => False
+  end.
+Proof. exact file_op_meaning. Qed.
+Print Assumptions C06_file_op_meaning.
+
+Theorem C06_spec_open_meaning : forall flag data,
+  spec_open flag data =
+  let ro := Z.land flag memfs_access_mask =? 0 in
+  let trunc := flag_has flag o_trunc && flag_has flag (Z.lor o_rdwr o_wronly) && negb ro in
+  mkBS (if trunc then [] else data) [mkBH (Z.to_nat (if flag_has flag o_append then zlen data else 0)) false ro].
+Proof. exact spec_open_meaning. Qed.
+Print Assumptions C06_spec_open_meaning.
+
+(* Through cow(mem,mem), for EVERY well-formed base and overlay, EVERY rooted name of a regular file
+   only the base has that does not lie below a regular file of the overlay (any number of overlay
+   directories missing), EVERY flag word with a write-ish bit (O_RDWR, O_WRONLY, O_APPEND, O_TRUNC,
+   O_CREATE, O_SYNC, ... — all but O_CREATE|O_EXCL together, which is refused with EEXIST after the
+   copy-up, see C06_failed_call_view_unchanged), EVERY sequence ops of methods of the returned
+   handle, then Stat, Open and EVERY sequence ops2 of methods of the second handle:
+   OpenFile succeeds; the first handle answers exactly as the flat byte array of C02 (ByteFile)
+   initialised with THE BASE'S BYTES answers ops (so modifying part of the file keeps all its other
+   bytes: pwrite / ptrunc of ByteFile); Stat shows a regular file of the array's final size; the
+   second handle answers exactly as a read-only handle on the array's FINAL bytes answers ops2 (a
+   successful write through the union is read back through the union); the base's stored
+   filesystem is unchanged; the overlay holds the final bytes under the name, is well-formed, and
+   differs otherwise only by the ancestor directories copy-up created. *)
+Theorem C06_write_read_back : forall sb sl tbl name flag perm f nd ops ops2,
+  WF sb -> WF sl -> wf_name name = true ->
   let nn := normalize_path name in
   lookup sb nn = Some f -> get_node sb f = Some nd -> ndir nd = false ->
-  copy_up_ready sl name ->
-  0 < zlen b <= zlen (ndata nd) ->
+  lookup sl nn = None -> below_file sl nn = false ->
+  Z.land flag cow_mask <> 0 -> flag_has flag o_excl && flag_has flag o_create = false ->
   let i := length tbl in
-  let result := b ++ skipn (Z.to_nat (zlen b)) (ndata nd) in
-  let '(st, rs) := run_steps (cow_step m_step m_step) (sb, sl, tbl)
-      [OpenFile name o_rdwr perm; HWrite i b; HClose i; Stat name; Open name; HRead (S i) (zlen (ndata nd))] in
-  (exists fi, rs = [RHandle i; RCount (zlen b) None; ROk; RInfo fi; RHandle (S i); RData result None] /\
-              fi_dir fi = false /\ fi_size fi = zlen (ndata nd)) /\
-  fs_view (fst (fst st)) = fs_view sb /\
-  exists g, LF nn g (snd (fst st)) result None.
-Proof. exact cow_mem_partial_write_read_back. Qed.
-Print Assumptions C06_write_read_back_partial.
+  Forall (fun o => op_handle_of o = Some i /\ file_op o = true) ops ->
+  Forall (fun o => op_handle_of o = Some (S i) /\ file_op o = true) ops2 ->
+  let spec := bf_run (spec_open flag (ndata nd)) (map (fun o => op_set_handle o 0) ops) in
+  let content := bdata (fst spec) in
+  let spec2 := bf_run (mkBS content [mkBH 0 false true]) (map (fun o => op_set_handle o 0) ops2) in
+  exists st outs outs2 fi,
+    run_steps (cow_step m_step m_step) (sb, sl, tbl) (OpenFile name flag perm :: ops ++ Stat name :: Open name :: ops2)
+      = (st, RHandle i :: outs ++ RInfo fi :: RHandle (S i) :: outs2) /\
+    length outs = length ops /\ length outs2 = length ops2 /\
+    proj_all ops outs = snd spec /\
+    fi_dir fi = false /\ fi_size fi = zlen content /\
+    proj_all ops2 outs2 = snd spec2 /\
+    fs_view (fst (fst st)) = fs_view sb /\
+    (exists g, LF nn g (snd (fst st)) content None) /\ WF (snd (fst st)) /\ copy_up_frame nn sl (snd (fst st)).
+Proof. exact cow_write_read_back. Qed.
+Print Assumptions C06_write_read_back.
 
-(* ---- 6. refused calls leave the view unchanged ---- *)
-(* PARTIAL.  Full statement: every failed call leaves the union view unchanged.  Proved, for
-   arbitrary inner filesystems: the refusals decided by CopyOnWriteFs itself — Rename of a name only
-   the base has (EPERM), Remove/RemoveAll when the overlay's own call fails (the union call fails,
-   e.g. EPERM for a base-only name), Mkdir of ANY name the union's own Stat finds (in the overlay, or
-   in the base when the overlay says "does not exist"; directory or file: a PathError wrapping
-   EEXIST, as copyOnWriteFs.go does since cow_mkdir_checks_union = 1) — make no inner
-   call except Stat (and the overlay's own failed Remove), change no handle, and hence change
-   neither view, given only that Stat changes nothing observable and a FAILED overlay call leaves
-   the overlay's view as it was.  Missing: failures after a successful copy-up (the overlay has
-   gained a copy with identical content; needs the union-view function over both models). *)
-Theorem C06_failed_call_view_unchanged_partial :
+(* proj_all: the results projected to what C02 speaks about (bytes, counts, positions, sizes,
+   error class, end-of-file flag), one per op *)
+Theorem C06_proj_all_meaning : forall ops outs,
+  proj_all ops outs = map (fun '(o, r) => proj o r) (combine ops outs).
+Proof. exact proj_all_meaning. Qed.
+Print Assumptions C06_proj_all_meaning.
+
+(* the sentence about a partial modification, for one WriteAt at ANY offset with ANY bytes: the file
+   becomes pwrite (base bytes) off b — bytes before off and from off+|b| on are the base's, a gap
+   beyond the old end is zero-filled (the pwrite theorems of C02) — and that is what Stat and ReadAt show *)
+Theorem C06_partial_write_keeps_other_bytes : forall sb sl tbl name perm f nd b off n,
+  WF sb -> WF sl -> wf_name name = true ->
+  let nn := normalize_path name in
+  lookup sb nn = Some f -> get_node sb f = Some nd -> ndir nd = false ->
+  lookup sl nn = None -> below_file sl nn = false ->
+  0 <= off -> 0 <= n ->
+  let i := length tbl in
+  let content := pwrite (ndata nd) (Z.to_nat off) b in
+  exists st r1 fi r2,
+    run_steps (cow_step m_step m_step) (sb, sl, tbl)
+      [OpenFile name o_rdwr perm; HWriteAt i b off; HClose i; Stat name; Open name; HReadAt (S i) n 0]
+      = (st, [RHandle i; r1; ROk; RInfo fi; RHandle (S i); r2]) /\
+    proj (HWriteAt i b off) r1 = PCount (length b) /\
+    fi_dir fi = false /\ fi_size fi = zlen content /\
+    proj (HReadAt (S i) n 0) r2 = PBytes (pread content 0 (Z.to_nat n)) (zlen (pread content 0 (Z.to_nat n)) <? n) /\
+    fs_view (fst (fst st)) = fs_view sb /\
+    (exists g, LF nn g (snd (fst st)) content None) /\ WF (snd (fst st)) /\ copy_up_frame nn sl (snd (fst st)).
+Proof. exact cow_partial_write. Qed.
+Print Assumptions C06_partial_write_keeps_other_bytes.
+
+(* reading a name the OVERLAY holds as a regular file (whatever the base holds): Open through the
+   union, then any methods: a read-only handle on the overlay's bytes; nothing stored changes *)
+Theorem C06_read_overlay_file : forall sb sl tbl name g d mt ops,
+  WF sl ->
+  let nn := normalize_path name in
+  LF nn g sl d mt ->
+  let i := length tbl in
+  Forall (fun o => op_handle_of o = Some i /\ file_op o = true) ops ->
+  let spec := bf_run (mkBS d [mkBH 0 false true]) (map (fun o => op_set_handle o 0) ops) in
+  exists sl' lh outs,
+    run_steps (cow_step m_step m_step) (sb, sl, tbl) (Open name :: ops) = ((sb, sl', tbl ++ [HL lh]), RHandle i :: outs) /\
+    length outs = length ops /\ proj_all ops outs = snd spec /\
+    LF nn g sl' (bdata (fst spec)) None /\ WF sl' /\ (forall k, k <> nn -> cview sl' k = cview sl k).
+Proof. exact cow_read_overlay_file. Qed.
+Print Assumptions C06_read_overlay_file.
+
+(* writing to a file the OVERLAY already holds (whatever the base holds under the name): the same statement
+   with the overlay's bytes as the initial content.  CopyOnWriteFs.OpenFile looks at filepath.Dir of the name
+   AS GIVEN; the statement asks that this is the parent of the normalised name, which is so whenever the last
+   element of the name is an ordinary one (C06_dir_of_name_is_parent; for "/d/f/" it is "/d/f" itself and the
+   call answers ENOTDIR — a failed call, covered by section 6) *)
+Theorem C06_dir_of_name_is_parent : forall name,
+  wf_name name = true ->
+  let b := snd (path_split name) in
+  b <> [] -> b <> s_dot -> b <> s_dotdot -> ~ In SLASH b ->
+  normalize_path (path_dir name) = par (normalize_path name).
+Proof. exact dir_key_ordinary_last. Qed.
+Print Assumptions C06_dir_of_name_is_parent.
+
+Theorem C06_write_overlay_file : forall sb sl tbl name flag perm g d mt ops,
+  WF sb -> WF sl -> wf_name name = true ->
+  let nn := normalize_path name in
+  LF nn g sl d mt -> normalize_path (path_dir name) = par nn ->
+  Z.land flag cow_mask <> 0 -> flag_has flag o_excl && flag_has flag o_create = false ->
+  let i := length tbl in
+  Forall (fun o => op_handle_of o = Some i /\ file_op o = true) ops ->
+  let spec := bf_run (spec_open flag d) (map (fun o => op_set_handle o 0) ops) in
+  exists sb' sl' lh outs g',
+    run_steps (cow_step m_step m_step) (sb, sl, tbl) (OpenFile name flag perm :: ops) = ((sb', sl', tbl ++ [HL lh]), RHandle i :: outs) /\
+    length outs = length ops /\ proj_all ops outs = snd spec /\
+    fs_view sb' = fs_view sb /\
+    LF nn g' sl' (bdata (fst spec)) None /\ WF sl' /\ (forall k, k <> nn -> cview sl' k = cview sl k).
+Proof. exact cow_write_overlay_file. Qed.
+Print Assumptions C06_write_overlay_file.
+
+(* ---- 6. a failed call leaves the view unchanged ---- *)
+(* the union view (Model/CowView.v): the overlay's entry if the overlay has one, otherwise the base's;
+   an entry is the kind and, for a regular file, the bytes (mode and mtime are not part of it) *)
+Theorem C06_uview_meaning : forall sb sl k,
+  uview sb sl k = match cview sl k with Some e => Some e | None => cview sb k end.
+Proof. exact uview_meaning. Qed.
+Print Assumptions C06_uview_meaning.
+
+(* the hypotheses of the theorem below, spelled out.  op_names_abs: every path argument begins with the
+   separator.  union_handles_inert: the layer handle of every union (directory) handle of the table is
+   read-only or closed (CopyOnWriteFs.Open opens both directories read-only; C06_ex_union_handle_inert).
+   cow_call_ok: for Rename, the overlay's own Rename is a well-formed call in the sense of C01 or the
+   overlay lacks the old name; for the calls that may copy up (Create, OpenFile, Chmod, Chown, Chtimes):
+   IF the base holds a directory under the name, that node carries no bytes (dir_no_bytes — true of every
+   directory no program has written into through a handle; C06_failed_call_dir_with_bytes_refuted shows
+   what happens otherwise). *)
+Theorem C06_op_names_abs_meaning : forall o,
+  op_names_abs o = match o with
+                   | Create p | Mkdir p _ | MkdirAll p _ | Open p | OpenFile p _ _ | Remove p | RemoveAll p | Stat p
+                   | Chmod p _ | Chown p _ _ | Chtimes p _ => is_rooted p
+                   | Rename p q => is_rooted p && is_rooted q
+                   | _ => true
+                   end.
+Proof. exact op_names_abs_meaning. Qed.
+Print Assumptions C06_op_names_abs_meaning.
+
+Theorem C06_failed_call_hyps_meaning : forall sb sl tbl o,
+  (union_handles_inert sl tbl <->
+   forall i u lh h, nth_error tbl i = Some (HU u) -> ulayer u = Some lh -> nth_error (mhandles sl) lh = Some h ->
+     hro h || hclosed h = true) /\
+  (cow_call_ok sb sl o <->
+   match o with
+   | Rename p q => WfOps.wf_op sl (Rename p q) = true \/ lookup sl (normalize_path p) = None
+   | Create p | OpenFile p _ _ | Chmod p _ | Chown p _ _ | Chtimes p _ =>
+       forall f nd, lookup sb (normalize_path p) = Some f -> get_node sb f = Some nd -> ndir nd = true -> ndata nd = []
+   | _ => True
+   end).
+Proof. exact failed_call_hyps_meaning. Qed.
+Print Assumptions C06_failed_call_hyps_meaning.
+
+(* Full statement: every failed call leaves the union view unchanged.  Through cow(mem,mem), for EVERY
+   well-formed base and overlay (WF, C01), a base without writable open handles (the hypothesis of C05), EVERY
+   handle table, EVERY one of the thirteen Fs methods with absolute names and EVERY method of EVERY handle
+   (base, overlay and union handles): if the call returns an error, the base's stored filesystem is what it
+   was and the union view of EVERY path is what it was.  This includes the failures AFTER a copy-up — e.g.
+   OpenFile(O_CREATE|O_EXCL) of a base-only file answers EEXIST after the overlay has gained the file — and
+   after a HALF-DONE one — Chtimes or OpenFile(O_RDWR) of a base-only directory: copyFile creates a regular
+   file in the overlay, finds 0 bytes instead of 42, removes it again and reports EIO; in both cases the overlay
+   HAS changed (ancestor directories the base also has; a copy with identical bytes), the view has not.
+   Named exclusions: relative names; Rename whose overlay-level call is not well-formed while the overlay holds
+   the old name (MemFsRename proves success only for well-formed calls); a base DIRECTORY that carries bytes
+   (refuted below). *)
+Theorem C06_failed_call_view_unchanged : forall sb sl tbl o,
+  WF sb -> WF sl -> all_inert sb -> union_handles_inert sl tbl ->
+  op_names_abs o = true -> cow_call_ok sb sl o ->
+  res_is_err (snd (cow_step m_step m_step (sb, sl, tbl) o)) = true ->
+  let st' := fst (cow_step m_step m_step (sb, sl, tbl) o) in
+  fs_view (fst (fst st')) = fs_view sb /\
+  forall k, uview (fst (fst st')) (snd (fst st')) k = uview sb sl k.
+Proof. exact cow_failed_call_view. Qed.
+Print Assumptions C06_failed_call_view_unchanged.
+
+(* towards union_handles_inert in every reachable state: the handle CopyOnWriteFs.Open obtains from the
+   overlay is read-only, and NO method of MemMapFs or of its handles — the thirteen Fs methods, all handle
+   methods, in any state — ever makes a read-only or closed handle writable again or moves it.  (Not proved:
+   the bookkeeping that the table of a CopyOnWriteFs only ever gains union entries through Open; the
+   hypothesis is shown satisfied on a concrete reached state in C06_ex_union_handle_inert.) *)
+Theorem C06_open_handle_is_inert : forall s p s' lh, m_step s (Open p) = (s', RHandle lh) ->
+  exists h, nth_error (mhandles s') lh = Some h /\ hro h || hclosed h = true.
+Proof. exact layer_open_handle_inert. Qed.
+Print Assumptions C06_open_handle_is_inert.
+
+Theorem C06_layer_handles_stay_inert : forall s o j h,
+  nth_error (mhandles s) j = Some h -> hro h || hclosed h = true ->
+  exists h', nth_error (mhandles (fst (m_step s o))) j = Some h' /\ hro h' || hclosed h' = true.
+Proof. exact layer_step_keeps_inert. Qed.
+Print Assumptions C06_layer_handles_stay_inert.
+
+(* the excluded corner is a real one.  MemMapFs accepts OpenFile(dir, O_RDWR) and Write through that handle;
+   the directory node then carries bytes while Stat keeps reporting the fixed size 42.  With exactly 42 bytes
+   copyFile's size check passes: OpenFile("/d", O_RDWR|O_CREATE|O_EXCL) through the union answers EEXIST and
+   the union now shows "/d" — a directory before the call — as a regular file of 42 bytes.
+   corpus/C06/dir-with-bytes.case replays this against the implementation on every run (it does the same). *)
+Theorem C06_failed_call_dir_with_bytes_refuted :
+  exists sb sl tbl o k,
+    WF sb /\ WF sl /\ all_inert sb /\ union_handles_inert sl tbl /\ op_names_abs o = true /\
+    ~ dir_no_bytes sb (normalize_path rf_d) /\
+    res_is_err (snd (cow_step m_step m_step (sb, sl, tbl) o)) = true /\
+    uview sb sl k = Some (true, []) /\
+    uview (fst (fst (fst (cow_step m_step m_step (sb, sl, tbl) o)))) (snd (fst (fst (cow_step m_step m_step (sb, sl, tbl) o)))) k
+      = Some (false, repeat 120%N 42).
+Proof. exact failed_call_dir_with_bytes_refuted. Qed.
+Print Assumptions C06_failed_call_dir_with_bytes_refuted.
+
+(* the refusals decided by CopyOnWriteFs itself, for ARBITRARY inner filesystems (any step functions, any
+   notion of view on either side): Rename of a name only the base has (EPERM), Remove/RemoveAll when the
+   overlay's own call fails, Mkdir of ANY name the union's own Stat finds (a PathError wrapping EEXIST, as
+   copyOnWriteFs.go does since cow_mkdir_checks_union = 1) make no inner call except Stat (and the overlay's
+   own failed Remove), change no handle, and hence change neither view, given only that Stat changes nothing
+   observable and a FAILED overlay call leaves the overlay's view as it was *)
+Theorem C06_refusals_any_layers :
   forall (B L VB VL : Type) (bstep : B -> op -> B * res) (lstep : L -> op -> L * res) (vb : B -> VB) (vl : L -> VL),
   (forall s p, vb (fst (bstep s (Stat p))) = vb s) ->
   (forall s p, vl (fst (lstep s (Stat p))) = vl s) ->
@@ -271,7 +538,7 @@ Theorem C06_failed_call_view_unchanged_partial :
      snd (cow_step bstep lstep (sb, sl, tbl) (Mkdir p perm)) = RErr (EW KExist) /\
      same_view vb vl (sb, sl, tbl) (fst (cow_step bstep lstep (sb, sl, tbl) (Mkdir p perm)))).
 Proof. exact @cow_refusals_view. Qed.
-Print Assumptions C06_failed_call_view_unchanged_partial.
+Print Assumptions C06_refusals_any_layers.
 
 (* the exact outcome for the most common refusals *)
 Theorem C06_rename_base_only_eperm :
@@ -368,3 +635,86 @@ Example C06_ex_merge :
   map fi_size (merge_dirs [mkFi [97]%N false 1 0 0; mkFi [98]%N false 2 0 0] [mkFi [98]%N false 9 0 0; mkFi [99]%N true 0 0 0])
     = [1; 2; 0].
 Proof. split; vm_compute; reflexivity. Qed.
+
+(* ---- non-vacuity of the hypotheses of section 5 ---- *)
+(* both demo layers are states of well-formed programs, hence WF *)
+Example C06_ex_WF : WF c06_base /\ WF c06_layer /\ WF m_init.
+Proof.
+  split; [|split]; [apply index_mirrors_map; vm_compute; reflexivity | apply index_mirrors_map; vm_compute; reflexivity | exact MemFsStep.WF_init].
+Qed.
+(* /d/f: rooted, a regular file of the base, absent from the overlay, not below a file there *)
+Example C06_ex_write_hyps :
+  wf_name p_f = true /\ lookup c06_layer (normalize_path p_f) = None /\ below_file c06_layer (normalize_path p_f) = false /\
+  below_file m_init (normalize_path p_f) = false /\ Z.land o_rdwr cow_mask <> 0.
+Proof.
+  split; [vm_compute; reflexivity|]. split; [vm_compute; reflexivity|]. split; [vm_compute; reflexivity|].
+  split; [vm_compute; reflexivity | discriminate].
+Qed.
+
+(* three directory levels missing in the overlay, an unclean spelling of the name, O_WRONLY|O_APPEND,
+   a write, a seek back and an overwrite in the middle; read back through the union *)
+Definition p_deep : str := [47;97;47;98;47;99;47;102]%N.                (* /a/b/c/f *)
+Definition p_deep_unclean : str := [47;97;47;47;98;47;46;47;99;47;102;47]%N.   (* /a//b/./c/f/ *)
+Definition c06_deep_base : mst :=
+  fst (run_steps m_step m_init [MkdirAll [47;97;47;98;47;99]%N 493; Create p_deep; HWrite 0 hello; HClose 0; Chtimes p_deep 1000]).
+Example C06_ex_deep_hyps :
+  WF c06_deep_base /\ wf_name p_deep_unclean = true /\ normalize_path p_deep_unclean = p_deep /\
+  lookup m_init p_deep = None /\ below_file m_init p_deep = false /\
+  (exists f nd, lookup c06_deep_base p_deep = Some f /\ get_node c06_deep_base f = Some nd /\ ndir nd = false /\ ndata nd = hello).
+Proof.
+  split; [apply index_mirrors_map; vm_compute; reflexivity|].
+  split; [vm_compute; reflexivity|]. split; [vm_compute; reflexivity|]. split; [vm_compute; reflexivity|].
+  split; [vm_compute; reflexivity|].
+  exists 4%nat. eexists. split; [vm_compute; reflexivity|]. split; [vm_compute; reflexivity|].
+  split; vm_compute; reflexivity.
+Qed.
+Example C06_ex_deep_write_read_back :
+  map (fun r => match r with RInfo fi => RInfo (mkFi (fi_name fi) (fi_dir fi) (fi_size fi) 0 0) | _ => r end)
+  (snd (run_steps (cow_step m_step m_step) (c06_deep_base, m_init, [])
+    [OpenFile p_deep_unclean (Z.lor o_wronly o_append) 0; HWrite 0 [33]%N; HSeek 0 6 0; HWrite 0 [87;79]%N; HClose 0;
+     Stat p_deep; Open p_deep; HRead 1 64; Stat [47;97;47;98]%N]))
+  = [RHandle 0; RCount 1 None; RPos 6 None; RCount 2 None; ROk;
+     RInfo (mkFi [102]%N false 12 0 0);
+     RHandle 1; RData [104;101;108;108;111;32;87;79;114;108;100;33]%N None;
+     RInfo (mkFi [98]%N true 42 0 0)].
+Proof. vm_compute. reflexivity. Qed.
+
+(* ---- non-vacuity of the hypotheses of C06_failed_call_view_unchanged ---- *)
+Example C06_ex_base_inert : all_inert c06_base /\ all_inert c06_deep_base.
+Proof.
+  split; intros i h Hh; (destruct i as [|[|i]]; vm_compute in Hh; [inversion Hh; reflexivity | try (inversion Hh; reflexivity); try discriminate | try discriminate]).
+  destruct i; discriminate.
+Qed.
+(* the union handle CopyOnWriteFs.Open hands out for /d (a directory in both layers) has read-only inner handles *)
+Definition c06_after_open : mst * mst * list chandle :=
+  fst (run_steps (cow_step m_step m_step) (c06_base, c06_layer, []) [Open p_d]).
+Example C06_ex_union_handle_inert :
+  snd c06_after_open = [HU (mkUF (Some 2%nat) (Some 1%nat) 0 [])] /\ union_handles_inert (snd (fst c06_after_open)) (snd c06_after_open).
+Proof.
+  assert (E : snd c06_after_open = [HU (mkUF (Some 2%nat) (Some 1%nat) 0 [])]) by (vm_compute; reflexivity).
+  split; [exact E|]. intros i u lh h Hn Hu Hh. rewrite E in Hn.
+  destruct i as [|i]; [|destruct i; discriminate Hn]. inversion Hn; subst u. cbn in Hu. inversion Hu; subst lh.
+  vm_compute in Hh. inversion Hh. reflexivity.
+Qed.
+Example C06_ex_call_ok : cow_call_ok c06_deep_base m_init (Chtimes [47;97;47;98;47;99]%N 5) /\
+                         cow_call_ok c06_base c06_layer (OpenFile p_f (Z.lor o_rdwr (Z.lor o_create o_excl)) 420).
+Proof.
+  split; intros f nd Hl Hn Hd; vm_compute in Hl; inversion Hl; subst f; vm_compute in Hn; inversion Hn; subst nd; try reflexivity; discriminate Hd.
+Qed.
+(* two failed calls that DO change the overlay: EEXIST after a complete copy-up of /d/f; EIO after the
+   half-done copy-up of the base-only directory /a/b/c (the overlay keeps /a and /a/b) — the view is the same *)
+Example C06_ex_failed_after_copy_up :
+  let st := fst (cow_step m_step m_step (c06_base, c06_layer, []) (OpenFile p_f (Z.lor o_rdwr (Z.lor o_create o_excl)) 420)) in
+  snd (cow_step m_step m_step (c06_base, c06_layer, []) (OpenFile p_f (Z.lor o_rdwr (Z.lor o_create o_excl)) 420)) = RErr (EW KExist) /\
+  cview c06_layer p_f = None /\ cview (snd (fst st)) p_f = Some (false, hello) /\
+  uview (fst (fst st)) (snd (fst st)) p_f = uview c06_base c06_layer p_f.
+Proof. cbv zeta. repeat split; vm_compute; reflexivity. Qed.
+Example C06_ex_failed_half_copy_up :
+  let o := Chtimes [47;97;47;98;47;99]%N 5 in
+  let st := fst (cow_step m_step m_step (c06_deep_base, m_init, []) o) in
+  snd (cow_step m_step m_step (c06_deep_base, m_init, []) o) = RErr (E KEIO) /\
+  cview m_init [47;97;47;98]%N = None /\ cview (snd (fst st)) [47;97;47;98]%N = Some (true, []) /\
+  cview (snd (fst st)) [47;97;47;98;47;99]%N = None /\
+  map (uview (fst (fst st)) (snd (fst st))) [[47;97]; [47;97;47;98]; [47;97;47;98;47;99]; p_deep]%N =
+  map (uview c06_deep_base m_init) [[47;97]; [47;97;47;98]; [47;97;47;98;47;99]; p_deep]%N.
+Proof. cbv zeta. repeat split; vm_compute; reflexivity. Qed.
